@@ -764,3 +764,39 @@ def kind_name_(m, v):
 
 for _nm, _bf, _ns, _af in INT_TEMPLATES:
     _reg_int_kinds(_nm, _bf, _ns, _af)
+
+
+@obligation("C20/dig-header-through-the-parser", profiles=("dev",),
+            desc="dig::File::parse (and its closures) reads the header of each test through HeaderParser - the same lexer and "
+                 "parser that load_test uses - and applies no text operation of its own to a test's source (no split / lines / "
+                 "trim / find / chars): how the header is laid out cannot matter to whether the document loads (call sites of the MIR)")
+def dig_header_through_parser(O):
+    m = O.mir
+    allowed = re.compile(r"<impl str>::(?:strip_suffix|len|is_empty|as_bytes|to_owned|to_string)\b")
+    textop = re.compile(r"core::str::<impl str>::(\w+)|<str as [A-Za-z]*Index")
+    R = dri.Rep({"family": "layout"}, [s_ for s_ in B.dig_battery() if "header" in s_.note or "laid out" in s_.note] + B.dig_battery()[:6], B.dig_judge)
+    n = 0
+    hp = 0
+    bad = []
+    for name, f in m.funcs.items():
+        if not (("src/dig.rs" in name or name.startswith("dig::")) and re.search(r"::parse(?:::\{closure#\d+\})*$", name)):
+            continue
+        n += 1
+        for bb, (stmts, term) in f.blocks.items():
+            if not term or term[0] != "call":
+                continue
+            c = str(term[2])
+            if "HeaderParser" in c and c.rstrip(">").endswith("::new") or "HeaderParser::<'_>::new" in c or re.search(r"HeaderParser.*::new", c):
+                hp += 1
+            mm = textop.search(c)
+            if mm and not allowed.search(c):
+                bad.append(c[:80])
+    O.rec["paths"] += n
+    if n == 0:
+        O.inconclusive("cannot find dig::File::parse")
+    if hp == 0:
+        O.violation("File::parse does not read test headers through HeaderParser", None, dict(R.facts, what="header not parsed by the parser"),
+                    R.battery, R.judge, "no HeaderParser::new call")
+    for b_ in sorted(set(bad))[:3]:
+        O.violation("File::parse applies a text operation of its own to test sources (%s)" % b_, None,
+                    dict(R.facts, what="own text operation on a test source"), R.battery, R.judge, b_)
